@@ -1,12 +1,12 @@
 #!/bin/bash
 # usage: [MXDIR=/tmp/mx] bin/mx_sweep.sh <tier> [seed] — run every check at <tier> on a scratch copy of /verif and /repo (unchanged tree);
-# output (one to four lines per check) on stdout
+# output (one to four lines per check) on stdout; PROPS="01 05" restricts the properties
 tier=${1:-thorough}; seed=${2:-1}; d=${MXDIR:-/tmp/mx}
 mkdir -p $d
 rsync -a --delete --exclude .git --exclude seeded --exclude replays /verif/ $d/verif/
 mkdir -p $d/verif/replays
 rm -rf $d/repo && git clone -q /repo $d/repo
 cd $d/verif
-for p in 01 02 03 04 05 06 07 08 09 10 11 12 13 14 15 16 17 18 19 20; do
+for p in ${PROPS:-01 02 03 04 05 06 07 08 09 10 11 12 13 14 15 16 17 18 19 20}; do
   /usr/bin/time -f "C$p %es" env VERIF_ROOT=$d/verif VERIF_REPO=$d/repo VERIF_SEED=$seed python3 $d/verif/bin/check C$p --tier $tier 2>&1 | grep -v "^WARNING\|left out\|^KNOWN" | cut -c1-500 | tail -4
 done
